@@ -7,10 +7,31 @@ import json
 import sys
 import warnings
 
+import os
 import numpy as np
 
-import pydl
-from pydl.pydlutils.bspline import iterfit
+
+def _globals_snapshot():
+    return {'geterr': dict(np.geterr()), 'printoptions': {k: repr(v) for k, v in np.get_printoptions().items()},
+            'warnings.filters': len(warnings.filters), 'environ': hash(tuple(sorted(os.environ.items())))}
+
+
+# the third-party packages pydl builds on are imported first: what is measured is what importing pydl itself changes
+import scipy.linalg, scipy.special, scipy.interpolate, scipy.optimize                                        # noqa: E401,E402
+import astropy, astropy.io.fits, astropy.units, astropy.table, astropy.utils.data, astropy.wcs, astropy.time  # noqa: E401,E402
+try:
+    with warnings.catch_warnings():
+        warnings.simplefilter('ignore')
+        import astropy.tests.runner                                                                          # noqa: F401
+except Exception:  # noqa: BLE001
+    pass
+
+_G0 = _globals_snapshot()          # before pydl is imported (the import must not change process-global settings)
+
+import pydl                                                    # noqa: E402
+from pydl.pydlutils.bspline import iterfit                     # noqa: E402
+
+_G1 = _globals_snapshot()
 
 
 def err(e, stage):
@@ -36,23 +57,55 @@ def kwargs_of(opts):
     return kw
 
 
+def lim(v, as_int):
+    """rejection limits as Python float, or as Python int when integral and asked for (the documented defaults are ints)"""
+    return int(v) if (as_int and float(v) == int(v)) else float(v)
+
+
 def one(x, y, w, c, grid, maxiter, kw=None, report=None):
-    """x, y, w are handed to iterfit AS THEY ARE (caller-owned arrays); afterwards they must be bit-identical to the
-    snapshots taken before the call (report['args_mutated'])"""
-    snap = (x.copy(), y.copy(), w.copy())
+    """x, y, w and the arrays inside kw (bkpt= / placed=) are handed to iterfit AS THEY ARE (caller-owned arrays);
+    afterwards they must be bit-identical to the snapshots taken before the call (report['args_mutated']).  The fitted
+    curve is evaluated on the test grid AND at the caller's own x array (the very object given to iterfit), in the
+    caller's order (report['cx'])."""
+    if kw is None:
+        kw = kwargs_of(c['opts'])
+    named = [('xdata', x), ('ydata', y), ('invvar', w)] + [(nm, a) for nm, a in kw.items() if isinstance(a, np.ndarray)]
+    snap = [a.copy() for _nm, a in named]
     with warnings.catch_warnings():
         warnings.simplefilter('ignore')
-        sset, outmask = iterfit(x, y, invvar=w, upper=c['upper'], lower=c['lower'],
-                                maxiter=maxiter, **(kw if kw is not None else kwargs_of(c['opts'])))
+        sset, outmask = iterfit(x, y, invvar=w, upper=lim(c['upper'], c.get('int_limits')), lower=lim(c['lower'], c.get('int_limits')),
+                                maxiter=maxiter, **kw)
+
+        def changed():
+            return [nm for (nm, a), b in zip(named, snap) if not (a.dtype == b.dtype and np.array_equal(a, b, equal_nan=True))]
         if report is not None:
-            report['args_mutated'] = [nm for nm, a, b in (('xdata', x, snap[0]), ('ydata', y, snap[1]), ('invvar', w, snap[2]))
-                                      if not (a.dtype == b.dtype and np.array_equal(a, b, equal_nan=True))]
-            report['result_aliases_arg'] = bool(isinstance(outmask, np.ndarray) and any(np.shares_memory(outmask, a) for a in (x, y, w)))
+            report['args_mutated'] = changed()
+            report['result_aliases_arg'] = bool(isinstance(outmask, np.ndarray) and any(np.shares_memory(outmask, a) for _nm, a in named))
         if not isinstance(sset.coeff, np.ndarray):
             # iterfit gave up (<= 1 good point left: `sset.coeff = 0`): nothing to evaluate
             return sset, np.asarray(outmask), None
         curve, gmask = sset.value(grid.copy())
+        if report is not None:
+            cx, cxm = sset.value(x)                    # the caller's abscissae, the caller's order, the caller's array object
+            report['cx'] = fl(cx)
+            report['cx_shape_ok'] = bool(np.shape(cx) == x.shape)
+            report['cx_aliases_arg'] = bool(any(np.shares_memory(cx, a) for _nm, a in named))
+            report['args_mutated'] = sorted(set(report['args_mutated'] + changed()))
     return sset, np.asarray(outmask), curve
+
+
+def buffers(n, dts, layout):
+    """three caller-owned work buffers of length n: contiguous, every second element of a longer array, or a
+    reversed-stride view"""
+    out = []
+    for dt in dts:
+        if layout == 'strided':
+            out.append(np.zeros(2 * n + 1, dtype=dt)[1::2])
+        elif layout == 'reversed':
+            out.append(np.zeros(n, dtype=dt)[::-1])
+        else:
+            out.append(np.empty(n, dtype=dt))
+    return out
 
 
 def call(c):
@@ -61,8 +114,21 @@ def call(c):
     w0 = np.array(c['w'], dtype='d').astype(c.get('wdtype', 'd'))
     grid = np.array(c['grid'], dtype='d')
     runs = []
-    # the SAME three ndarray objects are refilled in place for every permutation (a reused input buffer)
-    xb, yb, wb = np.empty_like(x0), np.empty_like(y0), np.empty_like(w0)
+    # the SAME three ndarray objects are refilled in place for every permutation (a reused input buffer), and the SAME
+    # breakpoint arrays (bkpt= / placed=) are handed to every call (a grid shared by many fits)
+    xb, yb, wb = buffers(x0.size, (x0.dtype, y0.dtype, w0.dtype), c.get('layout'))
+    kw = kwargs_of(c['opts'])
+    warm = c.get('warmup')
+    out = {}
+    if warm:
+        # an EARLIER fit with the same breakpoint objects on another data set (a sub-window of the data)
+        try:
+            sel = (x0 >= float(warm['lo'])) & (x0 <= float(warm['hi']))
+            rep = {}
+            one(x0[sel].copy(), y0[sel].copy(), w0[sel].copy(), c, grid, int(c['maxiter']), kw=kw, report=rep)
+            out['warmup'] = {'n': int(sel.sum()), 'args_mutated': rep.get('args_mutated', [])}
+        except Exception as e:  # noqa: BLE001
+            out['warmup'] = err(e, 'warmup')
     for p in c['perms']:
         p = np.array(p, dtype=int)
         x = x0[p]
@@ -71,7 +137,7 @@ def call(c):
         np.copyto(wb, w0[p])
         try:
             rep = {}
-            sset, outmask, curve = one(xb, yb, wb, c, grid, int(c['maxiter']), report=rep)
+            sset, outmask, curve = one(xb, yb, wb, c, grid, int(c['maxiter']), kw=kw, report=rep)
             if curve is None:
                 runs.append({'degenerate': True, 'mask': [bool(v) for v in np.atleast_1d(outmask)]})
                 continue
@@ -79,11 +145,22 @@ def call(c):
                          'mask_shape_ok': outmask.shape == x.shape, 'bk': fl(sset.breakpoints),
                          'bkmask_all': bool(np.all(sset.mask)), 'curve': fl(curve),
                          'finite': bool(np.all(np.isfinite(curve))), 'args_mutated': rep.get('args_mutated', []),
-                         'result_aliases_arg': rep.get('result_aliases_arg', False)})
+                         'result_aliases_arg': rep.get('result_aliases_arg', False) or rep.get('cx_aliases_arg', False),
+                         'cx': rep.get('cx'), 'cx_shape_ok': rep.get('cx_shape_ok', False)})
         except Exception as e:  # noqa: BLE001
             runs.append(err(e, 'iterfit'))
-    out = {'runs': runs}
+    out['runs'] = runs
     r0 = runs[0]
+    if (warm or c.get('fresh')) and 'err' not in r0 and 'degenerate' not in r0:
+        # the same call with pristine copies of every argument (nothing shared with the calls before)
+        try:
+            p = np.array(c['perms'][0], dtype=int)
+            rep = {}
+            s5, om5, curve5 = one(x0[p].copy(), y0[p].copy(), w0[p].copy(), c, grid, int(c['maxiter']), kw=kwargs_of(c['opts']), report=rep)
+            out['fresh'] = {'mask': [bool(v) for v in np.atleast_1d(om5)], 'curve': None if curve5 is None else fl(curve5),
+                            'bk': fl(s5.breakpoints), 'cx': rep.get('cx')}
+        except Exception as e:  # noqa: BLE001
+            out['fresh'] = err(e, 'fresh')
     if c.get('refit') and 'err' not in r0 and 'degenerate' not in r0:
         # behaviour of the real code alone: after convergence the curve must be the plain fit to the points
         # the returned mask keeps, and running longer must not change anything
@@ -116,7 +193,10 @@ def call(c):
 
 def main():
     calls = json.load(sys.stdin)
-    json.dump({'pydl_file': pydl.__file__, 'results': [call(c) for c in calls]}, sys.stdout)
+    res = [call(c) for c in calls]
+    g2 = _globals_snapshot()
+    json.dump({'pydl_file': pydl.__file__, 'results': res,
+               'globals_changed': {'by_import': [k for k in _G0 if _G0[k] != _G1[k]], 'by_calls': [k for k in _G1 if _G1[k] != g2[k]]}}, sys.stdout)
 
 
 if __name__ == '__main__':
